@@ -1,7 +1,7 @@
 """C06 -- forwarded cursors denote the same code or are invalid."""
 import json
 
-from vf import explore, menus, oracles, seeds, irx
+from vf import explore, menus, oracles, seeds, irx, plans
 from vf.oracles import BaseOracle
 from vf.checks.c01 import fill_evidence, seed_list, replay  # noqa
 
@@ -73,10 +73,5 @@ def _try(f):
 
 def run(rep):
     tier = rep.tier
-    names = seed_list(tier)
-    if tier == "quick":
-        st = explore.explore(rep, names, "vf.checks.c06", tier, depth=1, root_parts=6, safe_only=False, include_unsafe=True)
-    else:
-        st = explore.explore(rep, names, "vf.checks.c06", tier, depth=2, root_parts=8, safe_only=False, include_unsafe=True,
-                             max_states_per_level=6000, time_budget_s=3000)
+    st = plans.run_plan(rep, "vf.checks.c06", tier, plans.standard(tier), safe_only=False, include_unsafe=True)
     fill_evidence(rep, st)
